@@ -272,11 +272,11 @@ func (propC18) Gen(r *Rng, run uint64, tier string) *Plan {
 	if exhaustive {
 		p.Tags["exhaustive_orders"] = fmt.Sprint(n)
 	}
-	pressureProb := 0.03
+	pressureProb := 0.02
 	switch tpl.name {
 	case "regex_replace", "regexp", "regex", "not_regex", "label_filter_re", "line_format", "label_format_tpl", "pattern", "hello_one_space", "hello_two_spaces":
 		// queries that go through things a process might cache by text
-		pressureProb = 0.4
+		pressureProb = 0.3
 	}
 	if !cli && !raceMode() && r.Bool(pressureProb) {
 		// hundreds or thousands of other queries ran in this process first
